@@ -145,7 +145,7 @@ impl Prop for C04 {
         let st = |name: &str| Stage {
             name: name.into(),
             len: n,
-            chunk: (n / 32).max(500),
+            chunk: (n / 20).max(500),
             timeout: Duration::from_secs(900),
             what: format!("the fault product evaluated in the {} build", name),
         };
